@@ -216,6 +216,9 @@ def c19_event(run, d, cur_writer):
     # stacks of threads that keep running after the dump (heartbeat / spinner) legitimately differ afterwards
     running = {t["tid"] for t in report["threads"] if t.get("mode") in ("heartbeat", "spin")}
     live_stacks = {t["stack_start"] for t in ths if t["tid"] in running}
+    if cur_writer.get("sanitize"):
+        # sanitised stacks differ from target memory by design (C12 judges their bytes)
+        live_stacks |= {t["stack_start"] for t in ths}
     mem_ok = all((m["mismatch"] == -1 and not m.get("outside")) or m["start"] in live_stacks for m in d["oracle"]["mem_compare"])
     ev.update({"memCount": st["memlist"]["count"], "expMem": nstacks + len(cur_writer.get("app_memory", [])) + ipwin, "memOk": mem_ok,
                "blamedListed": bt is not None, "excCtxRva": st["exception"]["ctx_rva"], "excCtxSize": st["exception"]["ctx_size"],
